@@ -1,9 +1,9 @@
 #!/bin/bash
 # Run every registered thorough command once, optionally with a reduced exploration budget.
-# usage: tools/thorough_pass.sh [budget_seconds]      (results go to a scratch dir: nothing in /verif changes)
+# usage: tools/thorough_pass.sh [budget_seconds] ["C01 C08 ..."]   (results go to a scratch dir: nothing in /verif changes)
 cd "$(dirname "$0")/.."
 B=${1:-}
-IDS=$(python3 -c "import json;print(' '.join(c['property_id'] for c in json.load(open('MANIFEST.json'))['checks']))")
+IDS=${2:-$(python3 -c "import json;print(' '.join(c['property_id'] for c in json.load(open('MANIFEST.json'))['checks']))")}
 OUT=${SOAK_OUT:-/tmp/verif-thorough}
 mkdir -p $OUT
 for id in $IDS; do
